@@ -368,6 +368,100 @@ def rule_union(P):
     return r
 
 
+def rule_hosts_eval(P):
+    """what the hosts table says about a name, by evaluation: a name that is in the table never goes to DNS - if none of its addresses has the wanted family the answer is an address-family
+    error at once, not 'not in hosts'"""
+    from ..interp import normx, nkey, run_all
+    r = Rule("C38-hosts-eval", "K6", "evdns_getaddrinfo_fromhosts: not in the table -> -1 (go on to cache/DNS); in the table -> exactly the entries of the wanted family, or an address-family "
+             "error when there is none; an allocation failure -> -1 with nothing handed out", floor=25)
+    f = P.fn("evdns_getaddrinfo_fromhosts")
+    base, node, hints, port, res = [p[0] for p in f.params]
+    for fams in ((), (2,), (10,), (2, 10), (10, 2), (10, 10), (2, 2, 10)):
+        for want in (0, 2, 10):
+            for failat in (None, 0):
+                env = {base: PPtr("base"), ("@", "base", "#zero"): 1, node: 5, hints: PPtr("hints"), ("@", "hints", "#zero"): 1, ("@", "hints", "addrinfo.ai_family"): want, port: 80,
+                       res: PRef(None, "#res"), "#res": 0, "#made": (), "#list": ()}
+                for i, fam in enumerate(fams):
+                    env[("@", "e%d" % i, "#zero")] = 1
+                    env[("@", "e%d" % i, "hosts_entry.addr")] = PPtr("a%d" % i)
+                    env[("@", "a%d" % i, "hosts_entry::addr.sa")] = PPtr("s%d" % i)
+                    env[("@", "s%d" % i, "sockaddr.sa_family")] = fam
+                    env[("@", "s%d" % i, "#zero")] = 1
+                    env[("@", "a%d" % i, "#zero")] = 1
+
+                def hook(el, e_):
+                    n = callee_name(el.e)
+                    a = el.e[2]
+                    if n == "find_hosts_entry":
+                        try:
+                            prev = evalx(normx(a[2]), e_, P)
+                        except EvalError:
+                            return "impure"
+                        k = 0 if not isinstance(prev, PPtr) else int(prev.id[1:]) + 1
+                        return PPtr("e%d" % k) if k < len(fams) else 0
+                    if n == "evutil_new_addrinfo_":
+                        k = len(e_["#made"])
+                        try:
+                            sa = evalx(normx(a[0]), e_, P)
+                        except EvalError:
+                            sa = None
+                        e_["#made"] = e_["#made"] + (repr(sa),)
+                        if failat is not None and k == failat:
+                            return 0
+                        obj = "ai%d" % k
+                        e_[("@", obj, "#zero")] = 1
+                        return PPtr(obj)
+                    if n == "evutil_addrinfo_append_":
+                        try:
+                            first, new = evalx(normx(a[0]), e_, P), evalx(normx(a[1]), e_, P)
+                        except EvalError:
+                            return "impure"
+                        e_["#list"] = e_["#list"] + (repr(new),)
+                        return first if first else new
+                    if n in ("sockaddr_setport",):
+                        return 0
+                    if n == "evutil_freeaddrinfo":
+                        e_["#list"] = ()
+                        return 0
+                    return None
+                outs = [o for o in run_all(f, (f.entry, 0), env, lambda el: False, P, hook, max_steps=800) if not (o.kind == "exit" and o.why == "noreturn")]
+                match = [i for i, fam in enumerate(fams) if not ((fam == 2 and want == 10) or (fam == 10 and want == 2))]
+                for o in outs:
+                    if o.kind != "ret":
+                        r.brk("evdns_getaddrinfo_fromhosts(%s, family %d): %s %s" % (fams, want, o.kind, o.why))
+                        return r
+                    try:
+                        val = evalx(normx(o.at.e[1]), o.env, P)
+                    except EvalError:
+                        val = None
+                    handed = o.env.get("#res")
+                    nlist = len(o.env["#list"])
+                    r.inst((fams, want, failat), {"hosts_entries_families": list(fams), "wanted_family": want, "allocation_fails": failat is not None, "returns": val, "result_set": bool(handed), "addresses": nlist})
+                    bad = None
+                    if not fams:
+                        if val != -1 or handed:
+                            bad = "the name is not in the table: returns %r (expected -1)" % val
+                    elif failat is not None and match:
+                        if val != -1 or handed:
+                            bad = "an allocation fails: returns %r with a result %s (expected -1 and nothing handed out)" % (val, "set" if handed else "not set")
+                    elif not match:
+                        if val in (0, -1) or handed:
+                            bad = ("the name is in the table, but with no address of the wanted family: returns %r (expected the address-family error; -1 means 'not in hosts' and sends the "
+                                   "lookup on to the cache and to DNS - the hosts table no longer shadows DNS for this name)" % val)
+                    else:
+                        if val != 0 or not handed or nlist != len(match):
+                            bad = "returns %r with %d address(es), expected 0 with %d" % (val, nlist, len(match))
+                    if bad:
+                        r.bad("K6:evdns_getaddrinfo_fromhosts:hosts-answer", "%s:%d" % (f.file, f.line), f.name, "hosts entries of families %s, wanted family %d: %s" % (list(fams), want, bad))
+    seen, uniq = set(), []
+    for f_ in r.findings:
+        if f_.key not in seen:
+            seen.add(f_.key)
+            uniq.append(f_)
+    r.findings = uniq
+    return r
+
+
 def run(ctx, config):
     P = ctx.prog(UNITS, config)
-    return [rule_precedence(P), rule_port(P), rule_cachettl(P), rule_union(P)]
+    return [rule_precedence(P), rule_port(P), rule_cachettl(P), rule_union(P), rule_hosts_eval(P)]
